@@ -5,7 +5,7 @@
     bodies under /repo/src (re-read now) by pyvc; every obligation goes to z3 / cvc5.
  2. concrete part (/verif/runtime, real code under /venv/bin/python): bounded stand-ins, non-vacuity
     witnesses, and the source of failing real inputs for failed obligations (replay).
- 3. known findings (/verif/known_findings.jsonl, never written here) are replayed and printed.
+ 3. known findings (/verif/known_findings.txt, never written here) are replayed and printed.
 
 exit 0 held / 1 VIOLATION (line printed) / 2 undecided / 3 checker error.
 """
@@ -39,11 +39,11 @@ def slug(s):
 
 def load_known():
     out = []
-    p = os.path.join(HERE, "known_findings.jsonl")
+    p = os.path.join(HERE, "known_findings.txt")
     if os.path.exists(p):
         for line in open(p, encoding="utf-8"):
             line = line.strip()
-            if line and not line.startswith("#"):
+            if line and line.startswith("{"):   # "fixed: ..." text records and comments are for readers
                 out.append(json.loads(line))
     return out
 
